@@ -8,7 +8,7 @@ MAP = {'src/binops/add_sub.rs': ['C01', 'C17', 'C20'], 'fpdec-core/src/rounding.
        'src/binops/mul.rs': ['C02', 'C17', 'C20'], 'src/binops/cmp.rs': ['C08', 'C17'], 'fpdec-core/src/parser.rs': ['C06', 'C18', 'C07'],
        'src/format.rs': ['C07', 'C11'], 'src/as_integer_ratio.rs': ['C09'], 'src/into_int.rs': ['C14'],
        'fpdec-core/src/lib.rs': ['C16', 'C02', 'C03', 'C15'], 'src/from_float.rs': ['C13'], 'src/into_float.rs': ['C12'],
-       'src/binops/checked_div.rs': ['C03', 'C17'], 'src/lib.rs': ['C03', 'C13', 'C15'], 'src/binops/div.rs': ['C03', 'C17'],
+       'src/binops/checked_div.rs': ['C03', 'C17'], 'src/lib.rs': ['C03', 'C13', 'C15', 'C09'], 'src/binops/div.rs': ['C03', 'C17'],
        'src/binops/div_rounded.rs': ['C04', 'C03', 'C17'], 'src/from_str.rs': ['C06', 'C18', 'C07'],
        'fpdec-core/src/powers_of_ten.rs': ['C01', 'C05', 'C08', 'C18'], 'src/binops/checked_add_sub.rs': ['C01', 'C17'],
        'src/binops/checked_mul.rs': ['C02', 'C17'], 'src/binops/mul_rounded.rs': ['C04', 'C02'], 'src/quantize.rs': ['C04'],
